@@ -162,6 +162,7 @@ fn main() {
                 "faultsweep" => scen_native::faultsweep(&cfg, &mut out),
                 "shapes" => scen_native::shapes(&cfg, &mut out),
                 "bandpanic" => scen_native::bandpanic(&cfg, &mut out),
+                "scalecore" => scen_native::scalecore(&cfg, &mut out),
                 "buildcase" => scen_native::buildcase(&cfg, &mut out),
                 "statsfit" => scen_native::statsfit(&cfg, &mut out),
                 "fitmap" => scen_native::fitmap(&cfg, &mut out),
